@@ -28,7 +28,7 @@ def jobs(tier, seed):
     for ver, feat in (GRAPHS_Q if tier == "quick" else GRAPHS_T):
         for which in range(-1, MAXREFS):
             J.append(dict(entry="h_c04", args=[ver, feat, which], budget=bud))
-    for ver in ((SSE, SK, FO4) if tier == "quick" else (OB, FO3, SK, SSE, FO4, FO76)):
+    for ver in ((OB, FO3, SK, SSE, FO4) if tier == "quick" else (OB, FO3, SK, SSE, FO4, FO76)):
         for ns in (1, 2, 3):
             for ln in ((ns,) if tier == "quick" else range(1, 5)):
                 J.append(dict(entry="h_shapeorder", args=[ver, ns, ln], budget=bud))
